@@ -199,7 +199,8 @@ func (r *objectSetPhasesReconciler) reconcile(
 	}
 
 	var controllerOfAll []corev1alpha1.ControlledObjectReference
-	for _, phase := range objectSet.GetPhases() {
+	phases := objectSet.GetPhases()
+	for i, phase := range phases {
 		controllerOf, probingResult, err := r.reconcilePhase(
 			ctx, objectSet, phase, probe, previous)
 		if err != nil {
@@ -211,11 +212,39 @@ func (r *objectSetPhasesReconciler) reconcile(
 
 		if !probingResult.IsZero() {
 			// break on first failing probe
+			if objectSet.IsSpecPaused() {
+				// ObjectSetPhases of later phases keep running on their own,
+				// they still have to be paused together with their ObjectSet.
+				controllerOf, err := r.pauseLaterRemotePhases(ctx, objectSet, phases[i+1:])
+				if err != nil {
+					return nil, controllers.ProbingResult{}, err
+				}
+				controllerOfAll = append(controllerOfAll, controllerOf...)
+			}
 			return controllerOfAll, probingResult, nil
 		}
 	}
 
 	return controllerOfAll, controllers.ProbingResult{}, nil
+}
+
+// pauseLaterRemotePhases hands the paused state down to the ObjectSetPhases of phases behind a failing phase.
+func (r *objectSetPhasesReconciler) pauseLaterRemotePhases(
+	ctx context.Context, objectSet adapters.ObjectSetAccessor,
+	laterPhases []corev1alpha1.ObjectSetTemplatePhase,
+) ([]corev1alpha1.ControlledObjectReference, error) {
+	var controllerOfAll []corev1alpha1.ControlledObjectReference
+	for _, phase := range laterPhases {
+		if len(phase.Class) == 0 {
+			continue
+		}
+		controllerOf, _, err := r.remotePhase.Reconcile(ctx, objectSet, phase)
+		if err != nil {
+			return nil, err
+		}
+		controllerOfAll = append(controllerOfAll, controllerOf...)
+	}
+	return controllerOfAll, nil
 }
 
 func (r *objectSetPhasesReconciler) reconcilePhase(
